@@ -69,6 +69,26 @@ func (w *World) genesisAccNum(g Genesis, addr sdk.AccAddress) uint64 {
 	return w.accNums[addr.String()]
 }
 
+// denomOf: bond-denom kinds of the line protocol: 0 the chain's denom, 1 another valid denom, 2.. strings x/staking refuses
+func denomOf(k string) string {
+	switch k {
+	case "0":
+		return BondDenom
+	case "1":
+		return "otherdenom"
+	case "3":
+		return BondDenom + " "
+	case "4":
+		return " " + BondDenom
+	case "5":
+		return ""
+	case "6":
+		return "st"
+	default:
+		return "1 bad denom!"
+	}
+}
+
 func (w *World) valStr(t int) string {
 	if t < 0 {
 		return Malformed
@@ -120,12 +140,7 @@ func (w *World) BuildMsg(signer int, m Msg) (sdk.Msg, error) {
 		return poa.NewMsgCreateValidator(w.valStr(atoi(a[0])), w.PubKey(key), desc, comm, ms)
 	case "PARAMS":
 		// unbondNs maxVals maxEntries hist denomKind minComm
-		denom := BondDenom
-		if a[4] == "2" {
-			denom = "1 bad denom!"
-		} else if a[4] == "1" {
-			denom = "otherdenom"
-		}
+		denom := denomOf(a[4])
 		return &poa.MsgUpdateStakingParams{Sender: sender, Params: poa.StakingParams{
 			UnbondingTime: time.Duration(atoi64(a[0])), MaxValidators: uint32(atoi64(a[1])), MaxEntries: uint32(atoi64(a[2])),
 			HistoricalEntries: uint32(atoi64(a[3])), BondDenom: denom, MinCommissionRate: decArg(a[5]),
@@ -567,6 +582,30 @@ func (n *Node) Observe() []string {
 			} else {
 				fmt.Fprintf(&sb, " %d:%d", op, res.ConsensusPower)
 			}
+		}
+		out = append(out, sb.String())
+	}
+	// the pending-validators query, through the query server (what clients see), each consensus key unpacked
+	{
+		qs := poakeeper.NewQueryServerImpl(n.App.POAKeeper)
+		var sb strings.Builder
+		sb.WriteString("PQRY")
+		res, err := qs.PendingValidators(ctx, &poa.QueryPendingValidatorsRequest{})
+		if err == nil {
+			for _, p := range res.Pending {
+				key := -1
+				if err := p.UnpackInterfaces(n.App.AppCodec()); err == nil {
+					sv := poa.ConvertPOAToStaking(p)
+					if ca, err := sv.GetConsAddr(); err == nil {
+						key = w.KeyByConsAddr(ca)
+					}
+				}
+				d, c := p.Description, p.Commission.CommissionRates
+				fmt.Fprintf(&sb, " %d:%d:%s:%s:%d,%d,%d,%d,%d,%s,%s,%s", w.OpByVal(p.OperatorAddress), key, p.Tokens.String(), p.MinSelfDelegation.String(),
+					len(d.Moniker), len(d.Identity), len(d.Website), len(d.SecurityContact), len(d.Details), decStr(c.Rate), decStr(c.MaxRate), decStr(c.MaxChangeRate))
+			}
+		} else {
+			sb.WriteString(" ERR")
 		}
 		out = append(out, sb.String())
 	}
